@@ -43,14 +43,6 @@ Proof.
   destruct ac0 as [[|]| |], ac as [[|]| |], st as [[| | | |]| |]; vm_compute; reflexivity.
 Qed.
 
-Lemma quot_abs a w : w <> 0 -> 0 < w \/ Z.quot a (Z.abs w) = 0 -> Z.quot a w = Z.quot a (Z.abs w).
-Proof.
-  intros Hne [H|H].
-  - now rewrite Z.abs_eq by lia.
-  - destruct (Z.lt_ge_cases 0 w) as [Hp|Hn]; [now rewrite Z.abs_eq by lia|].
-    rewrite Z.abs_neq in * by lia. rewrite Z.quot_opp_r in * by lia. lia.
-Qed.
-
 Lemma tte_part tte : match tte with Some (MI t) => t < 0 | Some (MB _) => False | None => True end ->
   match tte with
   | Some (MI t) => Val (if t * 60 <? 0 then POWER_TIME_UNKNOWN else t * 60)
@@ -62,42 +54,10 @@ Proof.
   assert (t * 60 <? 0 = true) as -> by lia. reflexivity.
 Qed.
 
-(* seconds: the code divides by the SIGNED power; it agrees with now*3600/|power| when power > 0 or the answer is 0 *)
-Lemma secs_body now power tte :
-  (forall n w, now = Some n -> power = Some w -> 0 < w \/ Z.quot (n * 3600) (Z.abs w) = 0) ->
-  (match tte with Some (MI t) => t < 0 | Some (MB _) => False | None => True end
-   \/ (exists n w, now = Some n /\ power = Some w)) ->
-  match option_map MI now, option_map MI power with
-  | Some n, Some p =>
-    match n, p with
-    | MI n, MI p => Val (if p =? 0 then POWER_TIME_UNKNOWN else Z.quot (n * 3600) p)
-    | _, _ => Exc TypeError
-    end
-  | _, _ =>
-    match tte with
-    | Some (MI t) => Val (if t * 60 <? 0 then POWER_TIME_UNKNOWN else t * 60)
-    | Some (MB b) => do s <- py_int (concat (repeat b 60)); Val (if s <? 0 then POWER_TIME_UNKNOWN else s)
-    | None => Val POWER_TIME_UNKNOWN
-    end
-  end = Val (match now, power with
-             | Some n, Some w => if w =? 0 then POWER_TIME_UNKNOWN else Z.quot (n * 3600) (Z.abs w)
-             | _, _ => POWER_TIME_UNKNOWN
-             end).
-Proof.
-  intros Hw Ht. destruct now as [n|], power as [w|]; cbn [option_map].
-  - destruct (Z.eqb_spec w 0) as [->|Hne]; [reflexivity|].
-    now rewrite (quot_abs _ w Hne (Hw n w eq_refl eq_refl)).
-  - destruct Ht as [Ht|[n' [w' [_ E]]]]; [now apply tte_part|discriminate].
-  - destruct Ht as [Ht|[n' [w' [E _]]]]; [now apply tte_part|discriminate].
-  - destruct Ht as [Ht|[n' [w' [E _]]]]; [now apply tte_part|discriminate].
-Qed.
-
 Lemma secs_spec plugged now power tte :
-  (plugged = Some true \/
-   forall n w, now = Some n -> power = Some w -> 0 < w \/ Z.quot (n * 3600) (Z.abs w) = 0) ->
   (match tte with Some (MI t) => t < 0 | Some (MB _) => False | None => True end
    \/ (exists n w, now = Some n /\ power = Some w)) ->
-  secs_of plugged (option_map MI now) (option_map MI power) tte =
+  secs_of false plugged (option_map MI now) (option_map MI power) tte =
   Val (match plugged with
        | Some true => POWER_TIME_UNLIMITED
        | _ => match now, power with
@@ -106,18 +66,19 @@ Lemma secs_spec plugged now power tte :
               end
        end).
 Proof.
-  intros Hw Ht. unfold secs_of. destruct plugged as [[|]|]; [reflexivity| |];
-    (destruct Hw as [Hw|Hw]; [discriminate|]); now apply secs_body.
+  intros Ht. unfold secs_of. destruct plugged as [[|]|]; [reflexivity| |];
+    (destruct now as [n|], power as [w|]; cbn [option_map]; [reflexivity| | |]);
+    (destruct Ht as [Ht|[n' [w' [E1 E2]]]]; [now apply tte_part|discriminate]).
 Qed.
 
 (* one battery, signed attribute values: percent = 100*now/full (or the kernel's capacity), seconds left, plugged *)
-Theorem battery_values b ac0 ac : kbat_ok b = true -> tte_unused b = true -> neg_power_matters b ac0 ac = false ->
+Theorem battery_values b ac0 ac : kbat_ok b = true -> tte_unused b = true ->
   battery_of (bat_files b) (to_fres k_online ac0) (to_fres k_online ac) = Val (spec_battery b ac0 ac).
 Proof.
-  intros Hok Ht Hneg. unfold kbat_ok in Hok.
+  intros Hok Ht. unfold kbat_ok in Hok.
   apply andb_true_iff in Hok as [Hok Hcap]. apply andb_true_iff in Hok as [Hok Htte].
   apply andb_true_iff in Hok as [Hok Hfull]. apply andb_true_iff in Hok as [Hnow Hpow].
-  unfold battery_of, spec_battery.
+  unfold battery_of, battery_of_at, spec_battery.
   cbn [bat_files b_energy_now b_charge_now b_power_now b_current_now b_energy_full b_charge_full
        b_time_to_empty b_capacity b_status].
   rewrite !multi_alt by assumption. rewrite percent_spec by exact Hcap. cbn [obind].
@@ -125,16 +86,11 @@ Proof.
             | Some f, Some n => Some (if f =? 0 then 0%Q else (100 * inject_Z n / inject_Z f)%Q)
             | _, _ => match kb_capacity b with Present ds => Some (inject_Z (dec_val ds)) | _ => None end
             end) as [p|]; [|reflexivity].
-  rewrite plugged_spec. rewrite secs_spec; [reflexivity| |].
-  - unfold neg_power_matters in Hneg.
-    destruct (spec_plugged ac0 ac (kb_status b)) as [[|]|]; [now left| |]; right; intros n w En Ew;
-      rewrite En, Ew in Hneg; apply andb_false_iff in Hneg as [H|H];
-      try (right; apply negb_false_iff in H; lia);
-      (destruct (Z.eqb_spec w 0) as [->|Hne]; [right; now apply Z.quot_0_r_ext|left; lia]).
-  - unfold tte_unused in Ht. apply orb_true_iff in Ht as [Ht|Ht].
-    + left. rewrite multi_one by exact Htte. destruct (kb_tte b) as [x| |]; [lia|exact I|exact I].
-    + right. destruct (spec_salt (kb_now b)) as [n|]; [|discriminate].
-      destruct (spec_salt (kb_power b)) as [w|]; [|discriminate]. eauto.
+  rewrite plugged_spec. rewrite secs_spec; [reflexivity|].
+  unfold tte_unused in Ht. apply orb_true_iff in Ht as [Ht|Ht].
+  - left. rewrite multi_one by exact Htte. destruct (kb_tte b) as [x| |]; [lia|exact I|exact I].
+  - right. destruct (spec_salt (kb_now b)) as [n|]; [|discriminate].
+    destruct (spec_salt (kb_power b)) as [w|]; [|discriminate]. eauto.
 Qed.
 
 (* which entry: only battery-named entries count; none -> None *)
@@ -179,7 +135,7 @@ Theorem battery_selection g l ac0 ac : supply_ok l = true ->
   | x :: r =>
     let b := snd (min_entry x r) in
     In (min_entry x r) (batteries l) /\
-    (tte_unused b = true -> neg_power_matters b ac0 ac = false ->
+    (tte_unused b = true ->
      sensors_battery g (Some (supply_listing l)) (to_fres k_online ac0) (to_fres k_online ac)
      = Val (spec_battery b ac0 ac))
   end.
@@ -187,8 +143,8 @@ Proof.
   intros Hok. unfold sensors_battery. rewrite filter_listing by exact Hok.
   pose proof (batteries_ok l Hok) as Hb.
   destruct (batteries l) as [|x r]; [reflexivity|]. cbn zeta. split; [apply min_entry_in|].
-  intros Ht Hneg. cbn [map]. rewrite (min_entry_map bat_files x r). cbn [snd].
-  apply battery_values; [|exact Ht|exact Hneg].
+  intros Ht. cbn [map]. rewrite (min_entry_map bat_files x r). cbn [snd].
+  apply battery_values; [|exact Ht].
   rewrite forallb_forall in Hb. apply (Hb (min_entry x r)). apply min_entry_in.
 Qed.
 
@@ -243,8 +199,8 @@ Proof. split; reflexivity. Qed.
 
 Definition sn (g : sgn) (ds : bytes) : snum := {| sn_lead := []; sn_sign := g; sn_digits := ds; sn_trail := [] |}.
 
-(* finding: a fuel gauge that reports the discharge current as a negative number: 3 Ah left at -1 A is three
-   hours, the code answers -10800 *)
+(* the code before commit 90bacb2 ([battery_of_at true]: signed division): a fuel gauge that reports the discharge
+   current as a negative number -- 3 Ah left at -1 A is three hours, that code answered -10800 *)
 Definition neg_current_witness : kbat :=
   {| kb_now := {| s_first := Absent; s_second := Present (sn SgNone (bs "3000000")) |};
      kb_power := {| s_first := Absent; s_second := Present (sn SgMinus (bs "1000000")) |};
@@ -252,11 +208,13 @@ Definition neg_current_witness : kbat :=
      kb_tte := Present (sn SgMinus (bs "1")); kb_capacity := Present (bs "75"); kb_status := Present StDischarging |}.
 Theorem battery_negative_power_refuted :
   exists b r r', kbat_ok b = true /\ tte_unused b = true /\
-    battery_of (bat_files b) FAbsent FAbsent = Val (Some r) /\ bt_secsleft r = -10800 /\
-    spec_battery b Absent Absent = Some r' /\ bt_secsleft r' = 10800 /\ bt_percent r = bt_percent r'.
+    battery_of_at true (bat_files b) FAbsent FAbsent = Val (Some r) /\ bt_secsleft r = -10800 /\
+    spec_battery b Absent Absent = Some r' /\ bt_secsleft r' = 10800 /\ bt_percent r = bt_percent r' /\
+    battery_of (bat_files b) FAbsent FAbsent = Val (Some r').
 Proof.
   exists neg_current_witness. eexists. eexists. split; [reflexivity|]. split; [reflexivity|].
-  split; [vm_compute; reflexivity|]. split; [reflexivity|]. split; [vm_compute; reflexivity|]. split; reflexivity.
+  split; [vm_compute; reflexivity|]. split; [reflexivity|]. split; [vm_compute; reflexivity|].
+  split; [reflexivity|]. split; [reflexivity|]. vm_compute; reflexivity.
 Qed.
 
 Example battery_example :
@@ -265,6 +223,6 @@ Example battery_example :
                              s_second := Absent |};
               kb_full := {| s_first := Absent; s_second := Present (sn SgNone (bs "4000000")) |};
               kb_tte := Present (sn SgMinus (bs "1")); kb_capacity := Present (bs "75"); kb_status := Present StDischarging |} in
-  kbat_ok b = true /\ tte_unused b = true /\ neg_power_matters b Absent Absent = false /\
+  kbat_ok b = true /\ tte_unused b = true /\
   spec_battery b Absent Absent = Some {| bt_percent := (100 * 3000000 / 4000000)%Q; bt_secsleft := 10800; bt_plugged := Some false |}.
 Proof. cbv zeta. repeat split. Qed.
